@@ -294,44 +294,7 @@ Fixpoint exec (fuel : nat) (rec_of : option (bool * bool * list stmt)) (s : stmt
             (if save_kind then env_get e VKind else Some 0) with
       | Some el0, Some k0 =>
         let (sv, st0) := p_get_state st in
-        let restore_env (e1 : env) : option env :=
-          match (if save_elide then env_set e1 VElide el0 else Some e1) with
-          | Some e2 => if save_kind then env_set e2 VKind k0 else Some e2
-          | None => None
-          end in
-        let fix try (l : list (list tok * list stmt)) (e1 : env) (st1 : pstate)
-          : xres (outcome * env * pstate) :=
-          match l with
-          | [] =>
-            let st2 := set_in_choice st1 false in
-            if tok_in (cur st2) last_pats then
-              match block last e1 st2 with
-              | XOk (o, e2, st3) => XOk (o, e2, p_release st3)
-              | r => r
-              end
-            else
-              match p_advance_with_error cx st2 else_msg with
-              | Ok st3 => XOk (ONormal, e1, p_release st3)
-              | Panic w => XPanic w
-              end
-          | (pats, body) :: r =>
-            if tok_in (cur st1) pats then
-              match block body e1 st1 with
-              | XOk (o, e2, st2) =>
-                match o with
-                | ORetNone =>
-                  match restore_env e2 with
-                  | Some e3 => try r e3 (p_set_state (deletable prog) st2 sv)
-                  | None => XStuck sUnbound
-                  end
-                | ONormal => XOk (ONormal, e2, p_release st2)
-                | _ => XStuck sEscape
-                end
-              | r' => r'
-              end
-            else try r e1 st1
-          end in
-        try alts e st0
+        exec_alts fuel' rec_of sv (save_elide, el0) (save_kind, k0) alts last_pats last else_msg e st0
       | _, _ => XStuck sUnbound
       end
     | SReturnIfError el opt =>
@@ -379,19 +342,69 @@ with exec_block (fuel : nat) (rec_of : option (bool * bool * list stmt)) (b : li
   {struct fuel} : xres (outcome * env * pstate) :=
   match fuel with
   | 0 => XFuel
+  | S fuel' => exec_seq fuel' rec_of (length e) b e st
+  end
+
+(* the statements of a block in order; [n] is the length of the environment outside the block *)
+with exec_seq (fuel : nat) (rec_of : option (bool * bool * list stmt)) (n : nat) (l : list stmt) (e : env) (st : pstate)
+  {struct fuel} : xres (outcome * env * pstate) :=
+  match fuel with
+  | 0 => XFuel
   | S fuel' =>
-    let n := length e in
-    let fix go (l : list stmt) (e1 : env) (st1 : pstate) : xres (outcome * env * pstate) :=
-      match l with
-      | [] => XOk (ONormal, env_leave n e1, st1)
-      | s :: r =>
-        match exec fuel' rec_of s e1 st1 with
-        | XOk (ONormal, e2, st2) => go r e2 st2
-        | XOk (o, e2, st2) => XOk (o, env_leave n e2, st2)
+    match l with
+    | [] => XOk (ONormal, env_leave n e, st)
+    | s :: r =>
+      match exec fuel' rec_of s e st with
+      | XOk (ONormal, e2, st2) => exec_seq fuel' rec_of n r e2 st2
+      | XOk (o, e2, st2) => XOk (o, env_leave n e2, st2)
+      | r' => r'
+      end
+    end
+  end
+
+(* the alternatives of an ordered choice after `let state = get_state` *)
+with exec_alts (fuel : nat) (rec_of : option (bool * bool * list stmt)) (sv : saved)
+               (sel : bool * nat) (sk : bool * nat)
+               (alts : list (list tok * list stmt)) (last_pats : list tok) (last : list stmt) (else_msg : msgid)
+               (e1 : env) (st1 : pstate) {struct fuel} : xres (outcome * env * pstate) :=
+  match fuel with
+  | 0 => XFuel
+  | S fuel' =>
+    match alts with
+    | [] =>
+      let st2 := set_in_choice st1 false in
+      if tok_in (cur st2) last_pats then
+        match exec_block fuel' rec_of last e1 st2 with
+        | XOk (o, e2, st3) => XOk (o, e2, p_release st3)
+        | r => r
+        end
+      else
+        match p_advance_with_error cx st2 else_msg with
+        | Ok st3 => XOk (ONormal, e1, p_release st3)
+        | Panic w => XPanic w
+        end
+    | (pats, body) :: r =>
+      if tok_in (cur st1) pats then
+        match exec_block fuel' rec_of body e1 st1 with
+        | XOk (o, e2, st2) =>
+          match o with
+          | ORetNone =>
+            match (if fst sel then env_set e2 VElide (snd sel) else Some e2) with
+            | Some e3 =>
+              match (if fst sk then env_set e3 VKind (snd sk) else Some e3) with
+              | Some e4 =>
+                exec_alts fuel' rec_of sv sel sk r last_pats last else_msg e4 (p_set_state (deletable prog) st2 sv)
+              | None => XStuck sUnbound
+              end
+            | None => XStuck sUnbound
+            end
+          | ONormal => XOk (ONormal, e2, p_release st2)
+          | _ => XStuck sEscape
+          end
         | r' => r'
         end
-      end in
-    go b e st
+      else exec_alts fuel' rec_of sv sel sk r last_pats last else_msg e1 st1
+    end
   end
 
 (* call a rule function: fresh environment; returns whether it returned Some(()) / () *)
@@ -409,6 +422,18 @@ with call_fn (fuel : nat) (f : rule_fn) (st : pstate) {struct fuel} : xres (bool
     | XFuel => XFuel
     | XStuck w => XStuck w
     end
+  end.
+
+(* the `while self.pos < token_count` loop of parse_rule: the rest of the input goes into the error node *)
+Fixpoint drain_toks (l : list tok) (c : cst) (g : option ghost) : cst * option ghost :=
+  match l with
+  | [] => (c, g)
+  | t :: l' =>
+    drain_toks l' (c_advance c t (is_skipped cx t))
+               (match g with
+                | Some g0 => g_step g0 c (BAdvance t (is_skipped cx t))
+                | None => None
+                end)
   end.
 
 (* fn parse_rule(mut self, rule, diags, root) -> Cst *)
@@ -435,17 +460,7 @@ Definition parse_entry (fuel : nat) (r : rid) (root : kind) (msg_eof : msgid) : 
                    match p_open st4 with
                    | Panic w => Panic w
                    | Ok (et, st5) =>
-                     let fix drain (l : list tok) (c : cst) (g : option ghost) : cst * option ghost :=
-                       match l with
-                       | [] => (c, g)
-                       | t :: l' =>
-                         drain l' (c_advance c t (is_skipped cx t))
-                               (match g with
-                                | Some g0 => g_step g0 c (BAdvance t (is_skipped cx t))
-                                | None => None
-                                end)
-                       end in
-                     let '(c6, g6) := drain (skipn (pos st5) (toks cx)) (cstd st5) (gh st5) in
+                     let '(c6, g6) := drain_toks (skipn (pos st5) (toks cx)) (cstd st5) (gh st5) in
                      let st6 := mkSt c6 (Nat.max (pos st5) n) (cur st5) (err_node st5) (in_choice st5)
                                      (esa st5) (diags st5) (log st5) g6 (snaps st5) in
                      match c_close (cstd st6) et kError with
@@ -458,7 +473,13 @@ Definition parse_entry (fuel : nat) (r : rid) (root : kind) (msg_eof : msgid) : 
           | Ok st7 =>
             match c_close_root (cstd st7) m root with
             | Panic w => XPanic w
-            | Ok c8 => XOk (add_event (set_cst st7 c8 (gh st7)) (ECreate root m))
+            | Ok c8 =>
+              (* the ghost stays defined only if the root frame is the only open frame *)
+              let g8 := match gh st7 with
+                        | Some g => match a_close_root (g_abs g) m root with Some _ => Some g | None => None end
+                        | None => None
+                        end in
+              XOk (add_event (set_cst st7 c8 g8) (ECreate root m))
             end
           end
         end
